@@ -1,7 +1,7 @@
 use crate::writers::file_log_writer::InfixFilter;
 use crate::{DeferredNow, FlexiLoggerError};
 use std::{
-    ffi::{OsStr, OsString},
+    ffi::OsStr,
     ops::Add,
     path::{Path, PathBuf},
 };
@@ -216,18 +216,6 @@ impl FileSpec {
     pub fn used_directory(&self) -> PathBuf {
         self.directory.clone()
     }
-    pub(crate) fn has_basename(&self) -> bool {
-        !self.basename.is_empty()
-    }
-    pub(crate) fn has_discriminant(&self) -> bool {
-        self.o_discriminant.is_some()
-    }
-    pub(crate) fn uses_timestamp(&self) -> bool {
-        matches!(
-            self.timestamp_cfg,
-            TimestampCfg::Yes | TimestampCfg::Fixed(_)
-        )
-    }
 
     // Determines the start time now, if a timestamp is used, such that all files of a writer,
     // and all later evaluations of their names, get the same value.
@@ -303,21 +291,10 @@ impl FileSpec {
         let compressed_files =
             self.list_of_files(&InfixFilter::EqulsOrRestart(infix.to_string()), Some("gz"));
 
+        // (list_of_files has checked the suffix already)
         let restart_siblings = uncompressed_files
             .into_iter()
             .chain(compressed_files)
-            .filter(|pb| {
-                // ignore .gz suffix
-                let mut pb2 = PathBuf::from(pb);
-                if pb2.extension() == Some(OsString::from("gz").as_ref()) {
-                    pb2.set_extension("");
-                }
-                // suffix must match the given suffix, if one is given
-                match self.o_suffix {
-                    Some(ref sfx) => pb2.extension() == Some(OsString::from(sfx).as_ref()),
-                    None => true,
-                }
-            })
             .filter(|pb| {
                 pb.file_name()
                     .unwrap()
@@ -482,20 +459,17 @@ impl FileSpec {
                     }
                 }
 
-                // the infix can only be followed by a restart extension
-                let (infix, o_extension) = match rest.split_once('.') {
-                    Some((infix, extension)) => (infix, Some(extension)),
+                // the infix (which can contain dots) can only be followed by a restart extension
+                let (infix, o_restart_number) = match rest.split_once(".restart-") {
+                    Some((infix, number)) => (infix, Some(number)),
                     None => (rest, None),
                 };
-                if let Some(extension) = o_extension {
-                    if !infix_filter.allows_restart_extension() {
+                if let Some(number) = o_restart_number {
+                    if !infix_filter.allows_restart_extension()
+                        || number.len() < 4
+                        || !number.chars().all(|c| c.is_ascii_digit())
+                    {
                         return false;
-                    }
-                    match extension.strip_prefix("restart-") {
-                        Some(number)
-                            if number.len() >= 4
-                                && number.chars().all(|c| c.is_ascii_digit()) => {}
-                        _ => return false,
                     }
                 }
 
